@@ -133,3 +133,13 @@ Definition chk_decode10 (bytes : list N) (maxArr : Z) (o : obs) (real : N) (a : 
   | DOk _ _, None => false
   | _, _ => true
   end.
+
+(** a case decoded from a real file (os.File) that failed with EINVAL from lseek: the kernel rejects positions beyond the
+    file system's maximum file size, which the model's reader (bytes.Reader: any non-negative int64) accepts; the model must
+    then have decoded the file with a far-away end position, or have failed in the seek loop itself *)
+Definition chk_file_seek (bytes : list N) (maxArr : Z) : bool :=
+  match decode bytes maxArr with
+  | DOk d _ => (4294967296 <? d_end d)%Z
+  | DErr ESeek _ => true
+  | _ => false
+  end.
